@@ -446,7 +446,7 @@ def prep_fallback_scenario(rng, sid):
     if first == 'Xc':
         # B commits a whole exclusive section between the fallback's load and its CAS: the CAS fails on a word that is
         # completely free again but carries another version
-        b_ops = [f'lock X {xb} 0', f'paywr 0 {g.nextval()}', f'dtor {xb}', 'payrd 0']
+        b_ops = [f'lock X {xb} 0', f'paywr 0 {g.nextval()}', f'dtor {xb}']
     elif first == 'S':
         b_ops = [f'lock S {sb} 0'] + ['payrd 0'] * rng.choice([3, 8, 12]) + [f'dtor {sb}']
     elif first == 'SIX':
